@@ -22,6 +22,8 @@ package v1
 // NOTE: v1 runs no ValidateBlock before storing; ApplyBlock validates (and panics on failure) after the block is saved.
 //@ func BlockchainReactor.processBlock
 //@   requires wf: bcR.state.Validators != nil && wfPowers(bcR.state.Validators) && wfCached(bcR.state.Validators)
+//@   requires app: abciPhase == 0 && !mockActive && appH == bcR.state.LastBlockHeight
+//@   ensures app: result == nil ==> (abciPhase == 0 && appH == bcR.state.LastBlockHeight)
 //@   atcall BlockStore.SaveBlock committed: commitVerified(bcR.state.Validators, bcR.initialState.ChainID, types.Block.Hash(arg1), arg2.total, arg2.hash, arg1.Header.Height, arg3)
 //@   atcall BlockStore.SaveBlock pair: arg1 == first && arg3 == second.LastCommit
 //@   atcall BlockExecutor.ApplyBlock same: arg3 == first && arg2.Hash == types.Block.Hash(first) && commitVerified(arg1.Validators, bcR.initialState.ChainID, arg2.Hash, arg2.PartSetHeader.Total, arg2.PartSetHeader.Hash, first.Header.Height, second.LastCommit)
